@@ -171,6 +171,14 @@ def _materialise_property_factories(tree):
                     return ast.copy_location(copy.deepcopy(mapping[x.id]), x)
                 return x
         new.body = [S().visit(b) for b in new.body]
+        # the receiver is called `self` like in every other method (the factory may call it `prs`, `paragraph`, ...)
+        first = new.args.args[0].arg if new.args.args else None
+        names_ = {x.id for x in ast.walk(new) if isinstance(x, ast.Name)} | {x.arg for x in new.args.args[1:]}
+        if first and first != "self" and "self" not in names_:
+            for y in ast.walk(new):
+                if isinstance(y, ast.Name) and y.id == first:
+                    y.id = "self"
+            new.args.args[0].arg = "self"
         for y in ast.walk(new):
             if hasattr(y, "lineno"):
                 y.lineno = at.lineno
@@ -245,11 +253,35 @@ class _N5(ast.NodeTransformer):
     visit_AsyncFunctionDef = visit_FunctionDef
 
 
+class _N6(ast.NodeTransformer):
+    """N6: `getattr(o, "name")` / `setattr(o, "name", v)` with a literal identifier are the attribute access they perform (they appear
+    when a property factory is specialised to one attribute name)."""
+
+    @staticmethod
+    def _lit(e):
+        return isinstance(e, ast.Constant) and isinstance(e.value, str) and e.value.isidentifier()
+
+    def visit_Call(self, n):
+        self.generic_visit(n)
+        if isinstance(n.func, ast.Name) and n.func.id == "getattr" and len(n.args) == 2 and not n.keywords and self._lit(n.args[1]):
+            return ast.copy_location(ast.Attribute(value=n.args[0], attr=n.args[1].value, ctx=ast.Load()), n)
+        return n
+
+    def visit_Expr(self, st):
+        v = st.value
+        if isinstance(v, ast.Call) and isinstance(v.func, ast.Name) and v.func.id == "setattr" and len(v.args) == 3 and not v.keywords \
+                and self._lit(v.args[1]):
+            return ast.copy_location(ast.Assign(targets=[ast.Attribute(value=self.visit(v.args[0]), attr=v.args[1].value, ctx=ast.Store())],
+                                                value=self.visit(v.args[2]), type_comment=None), st)
+        return self.generic_visit(st)
+
+
 def normalise(tree):
     if os.environ.get("VERIF_NO_NORMALISE"):
         return tree
     tree = _materialise_property_factories(tree)
     tree = _N().visit(tree)
     tree = _N5().visit(tree)
+    tree = _N6().visit(tree)
     ast.fix_missing_locations(tree)
     return tree
